@@ -17,19 +17,19 @@ variable {α : Type} [Field α] [CharZero α]
 theorem readSite_eq_spec (cfg : SiteCfg) (hc : CfgOk cfg) (st : SiteSt)
     (h1 : st.counts.length = numPops cfg.map) (h2 : st.totals.length = numPops cfg.map) (gts : List GtRes) :
     (readSite cfg st gts).1 = siteSpec cfg gts := by
-  sorry
+  exact Sfs.readSite_eq_spec cfg hc.2.2.2.2 st h1 h2 gts
 
 /-- The buffers keep their length, so the invariant holds along the whole run. -/
 theorem readSite_lengths (cfg : SiteCfg) (st : SiteSt) (gts : List GtRes) :
     (readSite cfg st gts).2.counts.length = st.counts.length ∧ (readSite cfg st gts).2.totals.length = st.totals.length := by
-  sorry
+  exact Sfs.readSite_lengths cfg st gts
 
 /-- readSite_stateless: no state of one record leaks into the next. -/
 theorem readSite_stateless (cfg : SiteCfg) (hc : CfgOk cfg) (st st' : SiteSt)
     (h1 : st.counts.length = numPops cfg.map) (h2 : st.totals.length = numPops cfg.map)
     (h1' : st'.counts.length = numPops cfg.map) (h2' : st'.totals.length = numPops cfg.map) (gts : List GtRes) :
     (readSite cfg st gts).1 = (readSite cfg st' gts).1 := by
-  sorry
+  rw [Sfs.readSite_eq_spec cfg hc.2.2.2.2 st h1 h2 gts, Sfs.readSite_eq_spec cfg hc.2.2.2.2 st' h1' h2' gts]
 
 /-- run_eq_sum: when every record is digestible, the created spectrum is the entrywise sum of the per-record
     contributions, every record is counted as a site, and the skipped counter counts the insufficient ones.
@@ -38,7 +38,7 @@ theorem run_eq_sum (cfg : SiteCfg) (hc : CfgOk cfg) (recs : List Rec)
     (hwf : ∀ r ∈ recs, RecWf cfg r) (hok : ∀ r ∈ recs, recOk cfg r = true) :
     createRun (α := α) cfg false recs
       = .ok (sumContrib cfg recs, recs.length, (recs.filter (recSkipped cfg)).length) := by
-  sorry
+  exact createRun_spec cfg hc.2.2.2.2 false recs hok (fun h => by cases h)
 
 /-- run_append: concatenation of record streams = element-wise sum of the parts. -/
 theorem run_append (cfg : SiteCfg) (hc : CfgOk cfg) (a b : List Rec)
@@ -46,14 +46,20 @@ theorem run_append (cfg : SiteCfg) (hc : CfgOk cfg) (a b : List Rec)
     ∃ sa sb na nb ka kb,
       createRun (α := α) cfg false a = .ok (sa, na, ka) ∧ createRun (α := α) cfg false b = .ok (sb, nb, kb) ∧
       createRun (α := α) cfg false (a ++ b) = .ok (List.zipWith (· + ·) sa sb, na + nb, ka + kb) := by
-  sorry
+  have ha := createRun_spec (α := α) cfg hc.2.2.2.2 false a (fun r hr => hok r (by simp [hr])) (fun h => by cases h)
+  have hb := createRun_spec (α := α) cfg hc.2.2.2.2 false b (fun r hr => hok r (by simp [hr])) (fun h => by cases h)
+  have hab := createRun_spec (α := α) cfg hc.2.2.2.2 false (a ++ b) hok (fun h => by cases h)
+  refine ⟨_, _, _, _, _, _, ha, hb, ?_⟩
+  rw [hab, sumContrib_append, List.length_append, List.filter_append, List.length_append]
 
 /-- run_perm: any permutation of the records yields the same spectrum (exact in a field; in floating point up to
     summation order when projecting). -/
 theorem run_perm (cfg : SiteCfg) (hc : CfgOk cfg) (a b : List Rec) (hp : a.Perm b)
     (hwf : ∀ r ∈ a, RecWf cfg r) (hok : ∀ r ∈ a, recOk cfg r = true) :
     createRun (α := α) cfg false a = createRun (α := α) cfg false b := by
-  sorry
+  have ha := createRun_spec (α := α) cfg hc.2.2.2.2 false a hok (fun h => by cases h)
+  have hb := createRun_spec (α := α) cfg hc.2.2.2.2 false b (fun r hr => hok r (hp.mem_iff.mpr hr)) (fun h => by cases h)
+  rw [ha, hb, sumContrib_perm cfg a b hp, hp.length_eq, (hp.filter _).length_eq]
 
 /-! non-vacuity: complete → partially missing → exactly sufficient → insufficient, with projection to (2,2) -/
 example :
